@@ -22,12 +22,12 @@ Definition okbool (b : bool) (rest : list value) : pres := POk (VI (b2N b) :: re
 
 (* bits of a byte string: bit 0 is the most significant bit of byte 0 *)
 Definition get_bit_bytes (b : bytes) (i : N) : option N :=
-  match nth_error b (N.to_nat (i / 8)) with
+  match nth_N b (i / 8) with
   | Some c => Some (b2N (N.testbit (b2n c) (7 - i mod 8)))
   | None => None
   end.
 Definition set_bit_bytes (b : bytes) (i : N) (v : N) : option bytes :=
-  match nth_error b (N.to_nat (i / 8)) with
+  match nth_N b (i / 8) with
   | Some c =>
       let m := N.shiftl 1 (7 - i mod 8) in
       let c' := if v =? 0 then N.land (b2n c) (255 - m) else N.lor (b2n c) m in
@@ -162,7 +162,7 @@ Definition exec_pure (o : opc) (imms : list arg) (stk : list value) : pres :=
       then match set_bit_bytes a i v with Some x => POk (VB x :: r) | None => PFail end
       else PFail
   | O_getbyte, VI i :: VB a :: r =>
-      match nth_error a (N.to_nat i) with Some c => POk (VI (b2n c) :: r) | None => PFail end
+      match nth_N a i with Some c => POk (VI (b2n c) :: r) | None => PFail end
   | O_setbyte, VI v :: VI i :: VB a :: r =>
       if (v <=? 255) && (i <? blen a)
       then POk (VB (list_update a (N.to_nat i) (n2b v)) :: r) else PFail
@@ -207,17 +207,17 @@ Definition exec_pure (o : opc) (imms : list arg) (stk : list value) : pres :=
   | O_select, VI c :: b :: a :: r => POk ((if c =? 0 then a else b) :: r)
   | O_dig, _ =>
       match arg1 imms with
-      | Some n => match nth_error stk (N.to_nat n) with Some v => POk (v :: stk) | None => PFail end
+      | Some n => if N.leb n 255 then match nth_error stk (N.to_nat n) with Some v => POk (v :: stk) | None => PFail end else PFail
       | None => PFail
       end
   | O_cover, a :: r =>
       match arg1 imms with
-      | Some n => match insert_at (N.to_nat n) a r with Some s => POk s | None => PFail end
+      | Some n => if N.leb n 255 then match insert_at (N.to_nat n) a r with Some s => POk s | None => PFail end else PFail
       | None => PFail
       end
   | O_uncover, _ =>
       match arg1 imms with
-      | Some n => match remove_at (N.to_nat n) stk with Some (x, s) => POk (x :: s) | None => PFail end
+      | Some n => if N.leb n 255 then match remove_at (N.to_nat n) stk with Some (x, s) => POk (x :: s) | None => PFail end else PFail
       | None => PFail
       end
   | O_bury, a :: r =>
@@ -235,7 +235,7 @@ Definition exec_pure (o : opc) (imms : list arg) (stk : list value) : pres :=
       end
   | O_dupn, a :: r =>
       match arg1 imms with
-      | Some n => POk (repeat a (N.to_nat n) ++ a :: r)
+      | Some n => if N.leb n 255 then POk (repeat a (N.to_nat n) ++ a :: r) else PFail
       | None => PFail
       end
   | O_assert_, VI c :: r => if c =? 0 then PFail else POk r
